@@ -1,5 +1,5 @@
 From Coq Require Import Extraction ExtrOcamlBasic.
 From Cicada Require Import Model.Jobs.
 Extraction Language OCaml.
-Extraction "c06_model.ml" step trace init_rst binary_search insert_job remove_pid_from_job
+Extraction "c06_model.ml" step trace init_rst position insert_job remove_pid_from_job
   mark_job_member_stopped mark_job_member_continued sh_mark_job_as_running sh_mark_job_as_stopped.
